@@ -113,6 +113,9 @@ thread_local! {
 pub fn install_silent_panic_hook() {
     std::panic::set_hook(Box::new(|info| {
         let msg = format!("{}", info);
+        if std::env::var("VERIF_DEBUG_PANICS").is_ok() {
+            eprintln!("[panic] {}", msg);
+        }
         LAST_PANIC.with(|l| *l.borrow_mut() = Some(msg));
     }));
 }
@@ -467,7 +470,16 @@ pub fn run_property<P: Property>(ctx: &RunCtx) -> i32 {
                     (st.into_inner(), found)
                 }));
             }
-            handles.into_iter().map(|h| h.join().expect("shard thread")).collect()
+            handles
+                .into_iter()
+                .map(|h| match h.join() {
+                    Ok(r) => r,
+                    Err(_) => {
+                        eprintln!("INFRASTRUCTURE: a shard thread of the checker itself panicked (set VERIF_DEBUG_PANICS=1 to see where)");
+                        std::process::exit(2);
+                    }
+                })
+                .collect()
         });
         for (st, f) in results {
             stats.merge(st);
@@ -631,6 +643,60 @@ pub mod gen {
     /// moderate values most of the time, otherwise any finite f32 (subnormals, extremes): for exact oracles only
     pub fn mostly_moderate_any_finite() -> BoxedStrategy<f32> {
         prop_oneof![5 => moderate(), 3 => finite_f32()].boxed()
+    }
+    /// the f32 `k` ulps away from `x` (stays finite)
+    pub fn near(x: f32, k: i32) -> f32 {
+        if !x.is_finite() {
+            return x;
+        }
+        let mut b = x.to_bits() as i64;
+        // walk in sign-magnitude order
+        let neg = x.is_sign_negative();
+        let mag = (b & 0x7FFF_FFFF) + if neg { -(k as i64) } else { k as i64 };
+        b = if mag < 0 { (-mag) | if neg { 0 } else { 0x8000_0000 } } else { mag | if neg { 0x8000_0000 } else { 0 } };
+        let y = f32::from_bits(b as u32);
+        if y.is_finite() { y } else { x }
+    }
+    /// i64 values that sit on or next to an f32 rounding tie and need more than 53 bits: where a conversion through
+    /// f64 (double rounding) or a truncating conversion differs from a correctly rounded `as f32`
+    pub fn tie_i64() -> BoxedStrategy<i64> {
+        (25u32..=62, 0u32..(1 << 23), -2i64..=2, any::<bool>(), any::<bool>())
+            .prop_map(|(e, mant, delta, odd, neg)| {
+                // value = 1.mant * 2^e, plus half an f32 ulp (2^(e-24)), plus a small delta
+                let m = ((1u64 << 23) | mant as u64) as i128;
+                let m = if odd { m | 1 } else { m & !1 };
+                let shift = e as i32 - 23;
+                let base: i128 = if shift >= 0 { m << shift } else { m >> (-shift) };
+                let half: i128 = if e >= 24 { 1i128 << (e - 24) } else { 0 };
+                let v = (base + half + delta as i128).clamp(-(1i128 << 62), 1i128 << 62) as i64;
+                if neg { -v } else { v }
+            })
+            .boxed()
+    }
+    /// repeat some elements of a sequence (run lengths 2..=max_run), truncated to `cap`: long-range state such as
+    /// "32 absent updates in a row" is practically unreachable for an element-wise random sequence
+    pub fn with_runs<T: Clone + std::fmt::Debug + 'static>(seq: BoxedStrategy<Vec<T>>, max_run: usize, cap: usize) -> BoxedStrategy<Vec<T>> {
+        (seq, proptest::collection::vec((any::<u8>(), 2usize..=max_run.max(2)), 0..4))
+            .prop_map(move |(v, runs)| {
+                if v.is_empty() {
+                    return v;
+                }
+                let mut out = v.clone();
+                for (pos, len) in runs {
+                    if out.len() >= cap {
+                        break;
+                    }
+                    let i = pos as usize % out.len();
+                    let x = out[i].clone();
+                    let room = cap - out.len();
+                    for _ in 0..len.min(room) {
+                        out.insert(i, x.clone());
+                    }
+                }
+                out.truncate(cap);
+                out
+            })
+            .boxed()
     }
     pub fn moderate_nonzero() -> BoxedStrategy<f32> {
         moderate().prop_map(|x| if x == 0.0 { 1.5 } else { x }).boxed()
